@@ -140,11 +140,13 @@ class Real(Type):
         elif math.isnan(data):
             return 'NaN'
         else:
-            return data
+            return float(data)
 
     def decode(self, data):
         if isinstance(data, float):
             return data
+        elif isinstance(data, int) and not isinstance(data, bool):
+            return float(data)
         else:
             return {
                 'INF': float('inf'),
